@@ -362,7 +362,7 @@ def sub_cli(case):
     if exp == "refused":
         raise Mismatch("evo_rpe produced a result although the documented processing chain leaves no pose pairs", observed="missing_refusal")
     arch = cli.read_archive(out_zip)
-    arch["trajs"] = {"ref": _find(arch, files[1]), "est": _find(arch, files[2])}
+    arch["trajs"] = {"ref": _find(arch, files[2] if fmt == "bag" else files[1]), "est": _find(arch, files[3] if fmt == "bag" else files[2])}
     rsel, esel = exp
     sest = arch["trajs"]["est"]
     sref = arch["trajs"]["ref"]
